@@ -114,7 +114,8 @@ func runCrashProperty(t *rapid.T, pc crashProgCfg) {
 	})
 	// a dense file of several hundred blocks: freeing it takes several shrinker transactions
 	ndense := 0
-	acts["densebig"] = wrap(func(t *rapid.T) {
+	acts["densebig"] = func(t *rapid.T) {
+		// every WRITE is a timeline entry of its own (each is atomic by itself)
 		files := x.M.LiveKind(nt.NF3REG)
 		if len(files) == 0 || ndense >= 1 || x.Budget < 1400 {
 			return
@@ -123,15 +124,28 @@ func runCrashProperty(t *rapid.T, pc crashProgCfg) {
 		f := pick(t, files, "file")
 		start := uint64(rapid.IntRange(0, 200).Draw(t, "startblock"))
 		nw := rapid.IntRange(2, 3).Draw(t, "nwrites")
-		for i := 0; i < nw; i++ {
-			n := uint32(rapid.IntRange(300, 470).Draw(t, "blocks")) * BlockSize
-			if err := x.Write(LiveRef(f), start*BlockSize, patternData(g.nextTag(), uint64(n)), n, pick(t, g.Cfg.Stable, "stable")); err != nil {
-				stepErr = err
-				return
-			}
-			start += uint64(n / BlockSize)
+		for i := 0; i < nw && stepErr == nil; i++ {
+			cr.Step(func() error {
+				n := uint32(rapid.IntRange(300, 470).Draw(t, "blocks")) * BlockSize
+				if err := x.Write(LiveRef(f), start*BlockSize, patternData(g.nextTag(), uint64(n)), n, pick(t, g.Cfg.Stable, "stable")); err != nil {
+					stepErr = err
+					return nil
+				}
+				start += uint64(n / BlockSize)
+				return nil
+			})
 		}
-	})
+	}
+	densePlain := acts["densebig"]
+	acts["densebig"] = func(t *rapid.T) {
+		if x.Budget < 60 {
+			t.Skip("space budget used up")
+		}
+		densePlain(t)
+		if stepErr != nil {
+			failf(t, pc.Prop, detail(), "live run: %v", stepErr)
+		}
+	}
 	// ... and truncations of such files by more than the journal can free in one transaction
 	acts["shrinkbig"] = wrap(func(t *rapid.T) {
 		var big []*MNode
